@@ -144,7 +144,11 @@ func checkC02(cx *Ctx, r *Report) {
 	// the request asked is the one returned by AuthRequestByID
 	for _, m := range []string{"GetAccessConsumerServiceURL", "GetBindingType"} {
 		n := 0
-		for _, c := range callsIn(w.Func(kCallback)) {
+		var cbCalls []ssa.CallInstruction
+		for _, f := range w.sortedFuncs(vc.scope) {
+			cbCalls = append(cbCalls, callsIn(f)...)
+		}
+		for _, c := range cbCalls {
 			if c.Common().IsInvoke() && c.Common().Method.Name() == m {
 				n++
 				l := vc.Labels(c.Common().Value)
